@@ -202,4 +202,21 @@ def run(chk):
     cbb = build({"a": ("input", []), "u.d": ("bb_input", ["a"]), "u.q": ("bb_output", []), "w": ("buf", ["u.q"])}, outputs=["w"], blackboxes={"u": bb})
     r = P.call(FILE, "acyclic_unroll", cbb)
     chk.ob("C18.S.blackbox-guard", "acyclic_unroll::circuit with a blackbox", r[0] == "raise" and r[1] == "ValueError", file=FILE, func="acyclic_unroll", fact={"result": str(r)[:100]}, expect="ValueError")
+    from ..stale import circuit_snapshot, stale_state_rule
+    from ..minieval import ModelRaise as _MR
+
+    def _mk_call(file_, fname_, *extra):
+        def _call(c):
+            r = P.call(file_, fname_, c, *extra)
+            if r[0] != "return":
+                raise _MR(r[1], r[2] if len(r) > 2 else "")
+            return r[1]
+        return _call
+
+    from ..refmodel import build as _build
+
+    def _cyc():
+        return _build({"s": ("input", []), "r": ("input", []), "e": ("input", []), "q": ("nor", ["r", "qn"]), "qn": ("nor", ["s", "q"]), "o": ("and", ["q", "e"])}, outputs=["o", "qn"])
+
+    stale_state_rule(chk, "C18.H.no-stale-state", _mk_call(FILE, "acyclic_unroll"), circuit_snapshot, FILE, "acyclic_unroll", models=[("latch", _cyc)])
     chk.floor("model cyclic circuits", n, 5)
